@@ -19,6 +19,7 @@
   It is a parameter of the theorems, never an axiom.
 -/
 import SA.Proofs.TlsConfig
+import SA.Gen.PkgVars
 namespace SA.TlsConfig
 
 /-! ## 0. the trust anchors a pool starts from (used by every statement about RootCAs / ClientCAs below) -/
@@ -890,3 +891,15 @@ end SA.TlsConfig
 #print axioms SA.TlsConfig.C05_ref_oracle_anchored
 #print axioms SA.TlsConfig.C05_system_anchor_table
 #print axioms SA.TlsConfig.C05_witness_seeded_pool_accepts_foreign
+
+namespace SA.PkgState
+/-- **no_hidden_process_state**: the models of this property are functions of their arguments and of the objects they are
+    handed; the packages they model keep no package-level variables besides these (regenerated inventory: error
+    sentinels, tables, compiled patterns, the two session time-outs).  A new package-level variable — a counter, a cache, a
+    scratch buffer, a shared map, a registry — would make later calls depend on earlier ones, or concurrent calls on each
+    other, outside anything a per-call comparison of model and code can see. -/
+theorem C05_no_hidden_process_state :
+    Gen.pkgVarNames_cert = [] := by decide
+end SA.PkgState
+
+#print axioms SA.PkgState.C05_no_hidden_process_state
